@@ -61,6 +61,15 @@ def canon_answer(ans):
         return "ok bounds"          # judged as bounds in each build, legitimately different (std vs table estimator)
     if ans.startswith("ok config"):
         return "ok config"
+    if ans.startswith("ok wide="):
+        # open finding F06: the part whose internal conversion is too wide is excluded from the diff
+        t = ans.split()
+        if len(t) == 6:
+            if t[1][5] == "1":
+                t[2] = t[3] = "*"
+            if t[1][6] == "1":
+                t[4] = t[5] = "*"
+            return " ".join(t)
     if ans.startswith("panic Undocumented:"):
         return "panic Undocumented"  # an undocumented panic in both builds: the message text may differ (std vs no_std estimator)
     return ans
